@@ -75,7 +75,26 @@ def oracle(text, cfg, src, out):
         elif cls == "DSKIP":
             v = toks[0][1]
             cells += consts.get(v, 0) if isinstance(v, str) else v
-    # every use of a symbol carries the symbol's value; relative branches carry the distance
+    # an operation that is not expanded keeps its operands; a symbol among them is replaced by the symbol's value as
+    # declared (a negative constant stays negative: seed C04f substituted its unsigned 16-bit reading)
+    for j, c in enumerate(code + data):
+        if not 0 <= c["orig"] < len(src):
+            continue
+        s = src[c["orig"]]
+        if s["cls"] != c["cls"] or len(s["toks"]) != len(c["toks"]) or s["cls"] in ("LABEL", "DLABEL", "CONSTANT"):
+            continue
+        rel = s["cls"].endswith("R") and s["cls"] not in ("BR", "XOR", "OR", "LSR", "ASR")
+        for i, (a, b) in enumerate(zip(s["toks"], c["toks"])):
+            if a[0] != "SYMBOL" or a[1] not in st:
+                continue
+            kind, val = st[a[1]]
+            if kind == "label":
+                continue                    # code labels: the register forms expand, the relative forms carry a distance
+            if rel and i == 0 and kind != "const":
+                continue
+            if list(b) != ["INT", val]:
+                return "%s: operand %d names %s = %r, the preprocessed operation carries %r" % (s["cls"], i + 1, a[1], val, b)
+    # relative branches carry the distance
     for j, c in enumerate(code):
         s = src[c["orig"]]
         if s["cls"].endswith("R") and s["cls"] not in ("BR", "XOR", "OR", "LSR", "ASR") and s["toks"] and s["toks"][0][0] == "SYMBOL":
